@@ -26,8 +26,10 @@ def _sig(rj):
     st = ev.get("st", {})
     rb = ev.get("o", {}).get("rb", [])
     empty = any(rb[i] == rb[i + 1] for i in range(len(rb) - 1))      # some class interval is a single point
+    refused = any('"rk":"bpp"' in ln for ln in (rj.prefix or [])[:-1])   # an earlier call of the history was refused
     return {"action": ev.get("e"), "invariant": rj.invariant or "step", "kind": st.get("kind", ""), "fam": st.get("fam", ""),
-            "median": st.get("median", ""), "outcome": ev.get("rk", ""), "emptyclass": empty}
+            "median": st.get("median", ""), "outcome": ev.get("rk", ""), "emptyclass": empty,
+            "compound": st.get("kind", "") in ("invariant", "mixture"), "after_refusal": refused}
 
 
 def _validate(ck, trace, tag="t"):
